@@ -159,7 +159,7 @@ fn replay_known(k: &KnownFinding, st: &mut Stats) -> bool {
 pub fn run(cfg: &Config) -> i32 {
     let started = Instant::now();
     let budget = Duration::from_secs_f64(cfg.pick(40.0, 360.0) * cfg.scale);
-    let mut stats = parallel(cfg, "main", cfg.scaled(cfg.pick(40_000, 5_000_000)), budget, |idx, r, st| case(cfg, idx, r, st));
+    let mut stats = parallel(cfg, "main", cfg.scaled(cfg.pick(120_000, 5_000_000)), budget, |idx, r, st| case(cfg, idx, r, st));
     let mut known_replayed = Vec::new();
     for k in load_known(cfg).into_iter().filter(|k| k.property == "C17" && k.status == "open") {
         let still = replay_known(&k, &mut stats);
